@@ -730,6 +730,9 @@ class Condition(ConditionLike):
                     try:
                         spec_val[k] = INV_DTYPE_LOOKUP[v]
                     except KeyError:
+                        if isinstance(v, type):
+                            # a type that has no name in specs cannot be written
+                            raise
                         continue
 
         elif len(func_args["VAR_POSITIONAL"]) == 1 and not any(
@@ -742,6 +745,9 @@ class Condition(ConditionLike):
                     try:
                         spec_val[idx] = INV_DTYPE_LOOKUP[val]
                     except KeyError:
+                        if isinstance(val, type):
+                            # a type that has no name in specs cannot be written
+                            raise
                         continue
 
         elif len(func_args["VAR_KEYWORD"]) == 1 and not func_args["VAR_POSITIONAL"]:
@@ -752,6 +758,9 @@ class Condition(ConditionLike):
                     try:
                         spec_val[k] = INV_DTYPE_LOOKUP[v]
                     except KeyError:
+                        if isinstance(v, type):
+                            # a type that has no name in specs cannot be written
+                            raise
                         continue
 
         else:
